@@ -48,6 +48,8 @@ func (fv *FuncVC) reset() {
 	fv.sawStarHavoc = false
 	fv.strEqDone = nil
 	fv.lockOps = 0
+	fv.frameT = nil
+	fv.frameAll = false
 	fv.pc = "true"
 	fv.cur = &State{cells: map[*ssa.Alloc]string{}, heaps: map[string]string{}}
 }
@@ -61,6 +63,19 @@ func (fv *FuncVC) Generate() {
 		fv.heapGet(name, known[name])
 	}
 	fv.runOnce()
+	if fv.con != nil && fv.con.AllocBound != "" {
+		// every allocation (make / append growth) in this function is at most the stated number of elements
+		bound := fv.con.AllocBound
+		if fv.allocBoundTerm != "" {
+			bound = fv.allocBoundTerm
+		}
+		for i, site := range fv.allocSizes {
+			ob := &Obligation{Name: fmt.Sprintf("%s#alloc-bound#%d", fv.key, i+1), Func: fv.key, Kind: "alloc-bound", Label: site.pos,
+				Expect: "unsat", Prefix: site.prefix, Goal: "(<= " + site.size + " " + bound + ")", Reach: site.pc, Pos: site.pos,
+				Src: "allocation size <= " + fv.con.AllocBound, fv: fv, Props: fv.con.Props}
+			fv.obls = append(fv.obls, ob)
+		}
+	}
 	for name := range fv.heapSort {
 		if _, ok := known[name]; !ok && fv.sawStarHavoc {
 			fv.unsupp("heap %s discovered late after wildcard havoc", name)
@@ -118,6 +133,16 @@ func (fv *FuncVC) runOnce() {
 			t := entryEnv.tr(r.Expr)
 			fv.reportSpecErrs(entryEnv, r)
 			fv.assumeGlobal(t.T)
+		}
+		if con.AllocBound != "" {
+			// the bound is an expression over the entry state
+			if e, err := parseSpecExpr(con.AllocBound); err == nil {
+				t := entryEnv.tr(e)
+				fv.reportSpecErrs(entryEnv, &Clause{File: con.File, Line: con.Line})
+				fv.allocBoundTerm = fv.name("allocbound", "Int", t.T)
+			} else {
+				fv.unsupp("spec error: bad allocbound %q", con.AllocBound)
+			}
 		}
 		// vacuity guard: requires must be satisfiable
 		fv.obls = append(fv.obls, &Obligation{Name: fv.key + "#requires-sat", Func: fv.key, Kind: "requires-sat", Expect: "sat",
@@ -331,6 +356,7 @@ func (fv *FuncVC) loopInvariants(h *ssa.BasicBlock) []*Clause {
 }
 
 func (fv *FuncVC) checkInvariants(h *ssa.BasicBlock, kind string, from *ssa.BasicBlock) {
+	fv.checkFrameInvariants(h, kind, from)
 	for i, inv := range fv.loopInvariants(h) {
 		env := fv.invariantEnv(h)
 		t := env.tr(inv.Expr)
@@ -344,6 +370,7 @@ func (fv *FuncVC) checkInvariants(h *ssa.BasicBlock, kind string, from *ssa.Basi
 }
 
 func (fv *FuncVC) assumeInvariants(h *ssa.BasicBlock) {
+	fv.assumeFrameInvariants(h)
 	for _, inv := range fv.loopInvariants(h) {
 		env := fv.invariantEnv(h)
 		t := env.tr(inv.Expr)
@@ -535,49 +562,6 @@ func (c *Contract) HasLockEnsures() bool {
 		}
 	}
 	return false
-}
-
-// frameObligations: every heap the function touched that is not listed in modifies is unchanged on
-// previously allocated objects; location-restricted heaps change only at the listed locations.
-func (fv *FuncVC) frameObligations(env *Env, retID string) {
-	con := fv.con
-	penv := &Env{fv: fv, st: fv.entry, old: fv.entry, vars: env.vars, allocOld: "alloc@0"}
-	targets := fv.resolveModifies(con, penv)
-	tmap := map[string]modTarget{}
-	for _, t := range targets {
-		tmap[t.heap] = t
-	}
-	if _, all := tmap["*"]; all {
-		return
-	}
-	for _, name := range sortedKeys(fv.cur.heaps) {
-		if name == "alloc" || name == "LOCK" || strings.HasPrefix(name, "VIS$") || strings.HasPrefix(name, "DF$") {
-			continue
-		}
-		cur := fv.cur.heaps[name]
-		if cur == name+"@0" {
-			continue
-		}
-		sortS := fv.heapSort[name]
-		t, listed := tmap[name]
-		if listed && t.whole {
-			continue
-		}
-		var goal string
-		if strings.HasPrefix(sortS, "(Array Int ") {
-			// exists allocated p outside locs with different content => violation
-			p := fv.fresh("frame.p", "Int")
-			var outside []string
-			outside = append(outside, fmt.Sprintf("(< 0 %s)", p), fmt.Sprintf("(< %s alloc@0)", p))
-			for _, l := range t.locs {
-				outside = append(outside, "(not (= "+p+" "+l+"))")
-			}
-			goal = implies(and(outside...), eq("(select "+cur+" "+p+")", "(select "+name+"@0 "+p+")"))
-		} else {
-			goal = eq(cur, name+"@0")
-		}
-		fv.oblige("frame", name+"#"+retID, con.Props, goal, "heap "+name+" unchanged outside modifies", "")
-	}
 }
 
 // ---------- static write sets ----------
